@@ -404,7 +404,9 @@ class LockDir(lock.Lock):
             {"lock_info": str(holder_info)},
         ):
             result = self.force_break(holder_info)
-            ui.ui_factory.show_message(f"Broke lock {result.lock_url}")
+            if result is not None:
+                # (None: the holder released the lock in the meantime)
+                ui.ui_factory.show_message(f"Broke lock {result.lock_url}")
 
     def force_break(self, dead_holder_info):
         """Release a lock held by another process.
